@@ -246,6 +246,63 @@ func runOnceWide(sc onceWide) (what string, checks int) {
 	return what, checks
 }
 
+// runOnceFault: faults from the caller's side - mode 0 a constructor that panics on its first call for a key (its
+// caller recovers), mode 1 a key of an unhashable dynamic type.
+func runOnceFault(mode int) (what string) {
+	dl := bubble(func() {
+		var calls atomic.Int32
+		if mode == 0 {
+			oc := syncutil.NewOnceConstructor(func(k string) *obj {
+				if calls.Add(1); k == "bad" {
+					panic("constructor failed")
+				}
+				return &obj{1, 1}
+			})
+			p, _ := mon.Catch(func() { oc.Get("bad") })
+			if !p {
+				what = "Get returned although the constructor panicked"
+			}
+			// whatever later callers of that key get (the panic again, a wait), the constructor has had its one call
+			for i := 0; i < 3; i++ {
+				go func() { mon.Catch(func() { oc.Get("bad") }) }()
+			}
+			synctest.Wait()
+			if c := calls.Load(); c != 1 && what == "" {
+				what = fmt.Sprintf("the constructor was invoked %d times for one key after its first call panicked", c)
+			}
+			if o := oc.Get("good"); (o == nil || calls.Load() != 2) && what == "" {
+				what = "another key is affected by the panicked construction"
+			}
+			return
+		}
+		oc := syncutil.NewOnceConstructor(func(k any) *obj { calls.Add(1); return &obj{2, 2} })
+		first := oc.Get("old")
+		mon.Catch(func() { oc.Get([]int{1}) }) // a slice cannot be a map key: this panics in any implementation
+		var back atomic.Int32
+		go func() {
+			if oc.Get("old") == first {
+				back.Add(1)
+			}
+		}()
+		go func() {
+			if oc.Get("new") != nil {
+				back.Add(1)
+			}
+		}()
+		synctest.Wait()
+		if back.Load() != 2 {
+			what = fmt.Sprintf("after a Get with an unhashable key panicked (and was recovered), %d of 2 later Gets of ordinary keys returned", back.Load())
+		}
+	})
+	// mode 0: later callers of the key whose construction panicked may wait for ever (there is no result to hand
+	// out; the statement says nothing about them) - the bubble then ends in its deadlock report, which is not a
+	// finding.  Mode 1: nobody may be left waiting.
+	if dl != "" && what == "" && mode == 1 {
+		what = "bubble deadlock: " + dl
+	}
+	return what
+}
+
 func TestOnceBubble(t *testing.T) {
 	r := mon.Start("C17", "once_bubble")
 	var rc onceScenario
@@ -254,7 +311,16 @@ func TestOnceBubble(t *testing.T) {
 			t.Fatal(err)
 		}
 		var wc onceWide
-		if ok2, _ := mon.ReplayCase("once_bubble", &wc); ok2 && wc.Others > 0 {
+		var fc struct {
+			Fault int `json:"fault"` // 1 or 2
+		}
+		if ok3, _ := mon.ReplayCase("once_bubble", &fc); ok3 && fc.Fault > 0 {
+			if w := runOnceFault(fc.Fault - 1); w != "" {
+				r.Violation("replay", w, fc)
+			} else {
+				r.Eval(3)
+			}
+		} else if ok2, _ := mon.ReplayCase("once_bubble", &wc); ok2 && wc.Others > 0 {
 			if w, n := runOnceWide(wc); w != "" {
 				r.Violation("replay", w, wc)
 			} else {
@@ -331,6 +397,16 @@ func TestOnceBubble(t *testing.T) {
 				[]string{"key 0 under construction while the others are requested", "the constructor of key 0 requests the others", "all constructions held at once"}[wides[i].Mode], wides[i].Others, what), wides[i])
 		}
 	})
+	// faults from the caller's side: a constructor that panics (its caller recovers), a key that cannot be hashed
+	for mode := 0; mode < 2; mode++ {
+		set(0, map[string]any{"fault": mode + 1})
+		what := runOnceFault(mode)
+		idle(0)
+		r.Eval(3)
+		if what != "" {
+			r.Violation(fmt.Sprintf("once-fault:%d", mode), "OnceConstructor, "+[]string{"constructor that panics on its first call for a key", "key of an unhashable dynamic type"}[mode]+": "+what, map[string]any{"fault": mode + 1})
+		}
+	}
 	r.Count("wide_scenarios", int64(len(wides)))
 	r.NontrivialN(n)
 	r.Count("scenarios", n)
@@ -527,6 +603,81 @@ func runSema(sc semaScenario) (what string, checks int) {
 	return what, checks
 }
 
+// runSemaSimul: k acquirers leave a spin barrier together and race for the slots of a semaphore of capacity capN.
+func runSemaSimul(capN uint, k int) (what string) {
+	dl := bubble(func() {
+		sem := syncutil.NewChanSemaphore(capN)
+		ctx, cancel := context.WithCancel(context.Background())
+		defer cancel()
+		// a spin barrier: all k goroutines leave it within nanoseconds of each other
+		var ready atomic.Int32
+		errs := make([]error, k)
+		ret := make([]atomic.Bool, k)
+		for i := 0; i < k; i++ {
+			go func() {
+				ready.Add(1)
+				for ready.Load() < int32(k) {
+				}
+				errs[i] = sem.Acquire(ctx)
+				ret[i].Store(true)
+			}()
+		}
+		synctest.Wait()
+		held := 0
+		for i := range ret {
+			if ret[i].Load() {
+				if errs[i] != nil {
+					what = fmt.Sprintf("Acquire #%d returned %v before its context was done", i, errs[i])
+				}
+				held++
+			}
+		}
+		if held != int(capN) && what == "" {
+			what = fmt.Sprintf("%d of %d simultaneous Acquires hold a semaphore of capacity %d, want %d", held, k, capN, capN)
+		}
+		cancel()
+		synctest.Wait()
+		for i := range ret {
+			if !ret[i].Load() && what == "" {
+				what = fmt.Sprintf("Acquire #%d is still blocked although its context is done and no slot is free (capacity %d, %d simultaneous acquirers)", i, capN, k)
+			} else if ret[i].Load() && errs[i] != nil && errs[i] != ctx.Err() && what == "" {
+				what = fmt.Sprintf("Acquire #%d returned %v, the context error is %v", i, errs[i], ctx.Err())
+			}
+		}
+		// "Release never blocks": held+2 Releases leave a spin barrier together (two of them are spurious);
+		// every one of them must have returned at quiescence
+		nrel := held + 2
+		var rel atomic.Int32
+		var relReady atomic.Int32
+		for i := 0; i < nrel; i++ {
+			go func() {
+				relReady.Add(1)
+				for relReady.Load() < int32(nrel) {
+				}
+				sem.Release()
+				rel.Add(1)
+			}()
+		}
+		synctest.Wait()
+		if got := int(rel.Load()); got != nrel && what == "" {
+			what = fmt.Sprintf("%d of %d simultaneous Release calls (%d holders) are blocked", nrel-got, nrel, held)
+			// hand the blocked receivers something so that the bubble can end
+			for i := 0; i < nrel; i++ {
+				go func() { _ = sem.Acquire(context.Background()) }()
+			}
+		}
+		// unblock whatever is still stuck so that the bubble can end
+		for i := 0; i < k; i++ {
+			sem.Release()
+		}
+		synctest.Wait()
+	})
+	if dl != "" && what == "" {
+		what = "bubble deadlock: " + dl
+	}
+	return what
+}
+
 func TestSemaBubble(t *testing.T) {
 	r := mon.Start("C17", "sema_bubble")
 	var rc semaScenario
@@ -534,7 +685,17 @@ func TestSemaBubble(t *testing.T) {
 		if err != nil {
 			t.Fatal(err)
 		}
-		if w, n := runSema(rc); w != "" {
+		var sim struct {
+			Cap uint `json:"capacity"`
+			K   int  `json:"simultaneous_acquirers"`
+		}
+		if ok2, _ := mon.ReplayCase("sema_bubble", &sim); ok2 && sim.K > 0 {
+			if w := runSemaSimul(sim.Cap, sim.K); w != "" {
+				r.Violation("replay", w, sim)
+			} else {
+				r.Eval(int64(sim.K))
+			}
+		} else if w, n := runSema(rc); w != "" {
 			r.Violation("replay", w, rc)
 		} else {
 			r.Eval(int64(n))
@@ -591,78 +752,8 @@ func TestSemaBubble(t *testing.T) {
 		k := int(capN) + 1 + rep%4
 		sc := map[string]any{"capacity": capN, "simultaneous_acquirers": k, "rep": rep}
 		set(0, sc)
-		what := ""
-		dl := bubble(func() {
-			sem := syncutil.NewChanSemaphore(capN)
-			ctx, cancel := context.WithCancel(context.Background())
-			defer cancel()
-			// a spin barrier: all k goroutines leave it within nanoseconds of each other
-			var ready atomic.Int32
-			errs := make([]error, k)
-			ret := make([]atomic.Bool, k)
-			for i := 0; i < k; i++ {
-				go func() {
-					ready.Add(1)
-					for ready.Load() < int32(k) {
-					}
-					errs[i] = sem.Acquire(ctx)
-					ret[i].Store(true)
-				}()
-			}
-			synctest.Wait()
-			held := 0
-			for i := range ret {
-				if ret[i].Load() {
-					if errs[i] != nil {
-						what = fmt.Sprintf("Acquire #%d returned %v before its context was done", i, errs[i])
-					}
-					held++
-				}
-			}
-			if held != int(capN) && what == "" {
-				what = fmt.Sprintf("%d of %d simultaneous Acquires hold a semaphore of capacity %d, want %d", held, k, capN, capN)
-			}
-			cancel()
-			synctest.Wait()
-			for i := range ret {
-				if !ret[i].Load() && what == "" {
-					what = fmt.Sprintf("Acquire #%d is still blocked although its context is done and no slot is free (capacity %d, %d simultaneous acquirers)", i, capN, k)
-				} else if ret[i].Load() && errs[i] != nil && errs[i] != ctx.Err() && what == "" {
-					what = fmt.Sprintf("Acquire #%d returned %v, the context error is %v", i, errs[i], ctx.Err())
-				}
-			}
-			// "Release never blocks": held+2 Releases leave a spin barrier together (two of them are spurious);
-			// every one of them must have returned at quiescence
-			nrel := held + 2
-			var rel atomic.Int32
-			var relReady atomic.Int32
-			for i := 0; i < nrel; i++ {
-				go func() {
-					relReady.Add(1)
-					for relReady.Load() < int32(nrel) {
-					}
-					sem.Release()
-					rel.Add(1)
-				}()
-			}
-			synctest.Wait()
-			if got := int(rel.Load()); got != nrel && what == "" {
-				what = fmt.Sprintf("%d of %d simultaneous Release calls (%d holders) are blocked", nrel-got, nrel, held)
-				// hand the blocked receivers something so that the bubble can end
-				for i := 0; i < nrel; i++ {
-					go func() { _ = sem.Acquire(context.Background()) }()
-				}
-			}
-			// unblock whatever is still stuck so that the bubble can end
-			for i := 0; i < k; i++ {
-				sem.Release()
-			}
-			synctest.Wait()
-		})
+		what := runSemaSimul(capN, k)
 		idle(0)
-		if dl != "" && what == "" {
-			what = "bubble deadlock: " + dl
-		}
 		simul++
 		contended += int64(k)
 		r.Eval(int64(k))
